@@ -15,7 +15,7 @@ HEURISTICS = ['Simple', 'MinModMinPathsMaxVarImp', 'MinModMaxVarImpMinPaths', 'R
 
 def split_backend(proc):
     """'bio/stable' -> ('bio', 'stable'): the procedure of the biodivine-based Adf; 'hyb/...' : hybrid_step() first, then the naive procedure;
-    'hybraw/...': hybrid_step_opt(false).  Without prefix: the naive Adf built directly."""
+    'hybraw/...': hybrid_step_opt(false); 'hybrew/...': hybrid_step() of an object that carries the stable rewriting.  Without prefix: the naive Adf built directly."""
     if '/' in proc:
         b, q = proc.split('/', 1); return b, q
     return 'naive', proc
@@ -102,7 +102,12 @@ def run_backend(e, proc, tabs, n):
         if inner in ('complete', 'stable'): return A.drain(e, e.call('adfbiodivine::Adf::%s' % inner, [rb])), {}, None
         if inner == 'stable_rew': return list(e.call('adfbiodivine::Adf::stable_bdd_representation', [rb]).items), {}, None
         raise Unsupported('biodivine back-end procedure ' + inner)
-    adf = e.call('adfbiodivine::Adf::hybrid_step', [rb]) if backend == 'hyb' else e.call('adfbiodivine::Adf::hybrid_step_opt', [rb, False])
+    if backend == 'hybrew':
+        # the object the CLI builds for --stmrew: the stable rewriting is present before the bridge is taken.  from_parser_with_stm_rewrite needs a
+        # text; the same diagram (conjunction of statement <-> condition) is computed by the crate's own stable_representation() and stored
+        order = e.structs_q[('lib/src/adfbiodivine.rs', 'Adf')]
+        bio.f[order.index('rewrite')] = Some(e.call('adfbiodivine::Adf::stable_representation', [rb]))
+    adf = e.call('adfbiodivine::Adf::hybrid_step', [rb]) if backend in ('hyb', 'hybrew') else e.call('adfbiodivine::Adf::hybrid_step_opt', [rb, False])
     ra = Ref([adf], 0); bdd = adf.f[e.field('Adf', 'bdd')]
     if inner == 'stable_rew2': return list(e.call('adf::Adf::stable_bdd_representation', [ra, rb]).items), {}, bdd
     res, side = run_proc(e, inner, ra, adf)
